@@ -58,6 +58,12 @@ def one_multipart_decision(ctx):
             n += 1
             sites.add(f.qualname)
             par = cmp._parent
+            top = cmp
+            flip = False
+            while isinstance(par, ast.UnaryOp) and isinstance(par.op, ast.Not):
+                top, par, flip = par, par._parent, not flip
+            if flip:
+                op = {ast.Lt: ast.GtE, ast.GtE: ast.Lt, ast.Gt: ast.LtE, ast.LtE: ast.Gt}.get(type(op), type(op))()
             ok, why = False, ''
             if isinstance(par, ast.Return):
                 ok = isinstance(op, ast.GtE) and 'multipart' in f.name
@@ -72,7 +78,7 @@ def one_multipart_decision(ctx):
                             tb, fb = _kind(iff.body, cf), _kind(iff.orelse, cf)
                             want = ('single', 'multi') if neg else ('multi', 'single')
                             ctx.ob(cf, f'if {norm(iff.test)}: {tb} else: {fb}', (tb, fb) == want, 'the branches of the multipart decision are swapped')
-            elif isinstance(par, ast.If) and par.test is cmp:
+            elif isinstance(par, ast.If) and par.test is top:
                 tb, fb = _kind(par.body, f), _kind(par.orelse, f) if par.orelse else None
                 if isinstance(op, ast.Lt):
                     ok = tb == 'single' and (fb == 'multi')
